@@ -310,6 +310,10 @@ func (q *qgen) expr(d int) string {
 		}
 		return s + " " + q.kw("end")
 	case 18, 19:
+		if !q.konst && q.g.Intn(12) == 0 {
+			// a user-defined function whose name needs quoting
+			return q.pick("`my func`", "`f-1`", "`select`", "`f`") + "(" + q.exprList(d, 0, 2) + ")"
+		}
 		return q.kw(safeFuncs[q.g.Intn(len(safeFuncs))]) + q.osp() + "(" + q.exprList(d, 0, 3) + ")"
 	case 20:
 		return "(" + q.exprList(d, 2, 3) + ")" + q.pick(" = ", " <> ", " < ", " in ") + "(" + q.pick(q.exprList(d, 2, 3), "("+q.exprList(d, 2, 2)+"), ("+q.exprList(d, 2, 2)+")") + ")"
